@@ -434,6 +434,8 @@ func (p *ProjectRunner) RestartProcess(name string) error {
 			log.Err(err).Msgf("failed to stop process %s", name)
 			return err
 		}
+		// the new instance must not be launched before the old one has exited
+		proc.waitForCompletion()
 		time.Sleep(proc.getBackoff())
 	}
 
